@@ -141,6 +141,15 @@ func init() {
 				for j := 0; j < nr; j++ {
 					rs = append(rs, c06ReqRule(g))
 				}
+				if len(rs) > 0 && g.Chance(1, 5) {
+					// the same rule from two lists (with or without a $badfilter twin elsewhere in the list)
+					d := Pick(g, rs)
+					rs = append(rs, d)
+					if g.Chance(1, 2) && !strings.Contains(d, "badfilter") {
+						rs = append(rs, withBadfilter(d))
+					}
+					Shuffle(g, rs)
+				}
 				ns := g.Intn(4)
 				if g.Chance(1, 3) {
 					ns = 0
